@@ -33,12 +33,18 @@ type Txn struct {
 	Headers []KV   `json:"headers,omitempty"` // lower-case keys, sorted
 	Query   []KV   `json:"query,omitempty"`   // in order of appearance
 	Status  int    `json:"status"`
+	// Resp && NoResp: the REQUEST stream handled as a response (re-typed after an
+	// early response, Stream.executeReq): there is no response object, hence no status
+	NoResp bool `json:"noresp,omitempty"`
 }
 
 // Obs is what the implementation did for one transaction.
 type Obs struct {
 	Txn      Txn   `json:"txn"`
 	Selected []int `json:"selected"` // sorted ids of the flows returned (all kinds)
+	// engine cases only: did ANYTHING happen in Stream.ExecuteFlow (an action
+	// returned, a processor run in either direction, an invocation counted)
+	Acted *bool `json:"acted,omitempty"`
 }
 
 // Case = one flow set loaded in one order + a batch of transactions.
@@ -110,12 +116,19 @@ func coqTxn(t Txn) string {
 		if !t.Resp && t.Status == 0 {
 			return `(rq "` + t.URL + `")`
 		}
-		if t.Resp && t.Status == 200 {
+		if t.Resp && !t.NoResp && t.Status == 200 {
 			return `(rs "` + t.URL + `")`
 		}
+		if t.Resp && t.NoResp {
+			return `(rn "` + t.URL + `")`
+		}
+	}
+	status := int64(t.Status)
+	if t.Resp && t.NoResp {
+		status = -1 // Model.no_response
 	}
 	return "(mkTxn " + strings.Join([]string{
-		c.B(t.Resp), str(t.URL), str(t.Method), coqKVs(t.Headers), coqKVs(t.Query), c.Z(int64(t.Status)),
+		c.B(t.Resp), str(t.URL), str(t.Method), coqKVs(t.Headers), coqKVs(t.Query), c.Z(status),
 	}, " ") + ")"
 }
 
@@ -127,6 +140,9 @@ func coqCase(k *Case) string {
 			sel := make([]int64, len(o.Selected))
 			for i, s := range o.Selected {
 				sel[i] = int64(s)
+			}
+			if o.Acted != nil {
+				return "(obe " + coqTxn(o.Txn) + " " + c.ZList(sel) + " " + c.B(*o.Acted) + ")"
 			}
 			return "(ob " + coqTxn(o.Txn) + " " + c.ZList(sel) + ")"
 		}),
